@@ -268,6 +268,21 @@ def run(ctx):
         check_parse(ctx, d2, p2, path, multi, agents, want_states, want_steps, triplets_states(triplets), True)
         if W.P["objects"] and f.chance(1, 4):
             kept_parser_renamed_world(ctx, W, d2, p2, path, multi, agents, want_states, want_steps, f)
+        elif len(triplets) >= 2 and f.chance(1, 3):
+            # history on the path: a SHORTER trajectory (the first step only) is exported over the same file
+            try:
+                exporter.export_to_file(triplets[:1], path)
+            except Exception as e:
+                raise Violation("C10/export-raised", "export_to_file (shorter, over the same path)",
+                                f"{type(e).__name__}: {e}")
+            short_expected = "".join(exporter.export(triplets[:1])).encode("utf-8")
+            short_on_disk = fs.read_real_bytes(path)
+            if short_on_disk != short_expected:
+                raise Violation("C10/acknowledged-export-incomplete", "export_to_file (shorter, over the same path)",
+                                f"{len(short_on_disk)} bytes on disk, {len(short_expected)} expected: the file is not "
+                                f"what was exported last")
+            check_parse(ctx, d2, p2, path, multi, agents, want_states[:2], want_steps[:1], None, False)
+            ctx.probes["shorter_export_over_same_path"] += 1
     else:
         ctx.new_epoch()
         d2, p2, _ = C.lib_world(ctx, W, S0, tag="-r")
